@@ -10,6 +10,7 @@ import (
 	"io"
 	"net/http"
 	"net/http/httptest"
+	"net/url"
 	"path"
 	"regexp"
 	"strings"
@@ -37,6 +38,23 @@ type SpecURL struct {
 	Doc   string
 	Host  string // absurl
 	Query string // appended after '?', may carry HTML metacharacters
+	Enc   bool   // the text spells space and non-ASCII bytes of dirs/doc percent-encoded (else raw)
+}
+
+// encSeg percent-encodes the bytes of a path segment that URLs encode (space, non-ASCII).
+func encSeg(s string, enc bool) string {
+	if !enc {
+		return s
+	}
+	var b strings.Builder
+	for i := 0; i < len(s); i++ {
+		if s[i] == ' ' || s[i] >= 0x80 {
+			fmt.Fprintf(&b, "%%%02X", s[i])
+		} else {
+			b.WriteByte(s[i])
+		}
+	}
+	return b.String()
 }
 
 type Slot struct {
@@ -60,6 +78,7 @@ type Cfg struct {
 }
 
 type Req struct {
+	Inst   int // which instance of the case (1-based)
 	Method string
 	Target string // request target as written on the request line
 	Body   string
@@ -71,13 +90,17 @@ func (s SpecURL) Text() string {
 	case "default":
 		return ""
 	case "relative":
-		p = strings.Join(append(append([]string{}, s.Dirs...), s.Doc), "/")
+		var segs []string
+		for _, d := range append(append([]string{}, s.Dirs...), s.Doc) {
+			segs = append(segs, encSeg(d, s.Enc))
+		}
+		p = strings.Join(segs, "/")
 	default:
 		p = ""
 		for _, d := range s.Dirs {
-			p += "/" + d
+			p += "/" + encSeg(d, s.Enc)
 		}
-		p += "/" + s.Doc
+		p += "/" + encSeg(s.Doc, s.Enc)
 	}
 	if s.Kind == "absurl" {
 		p = "https://" + s.Host + p
@@ -97,7 +120,7 @@ func (c Cfg) JSON(specsha []int) M {
 	}
 	return M{"kind": c.Kind, "base": trace.B(c.Base), "path": trace.B(c.Path), "doc": trace.B(c.Doc),
 		"specurl": M{"kind": c.SpecURL.Kind, "dirs": trace.BB(c.SpecURL.Dirs), "doc": trace.B(c.SpecURL.Doc),
-			"host": trace.B(c.SpecURL.Host), "query": trace.B(c.SpecURL.Query)},
+			"host": trace.B(c.SpecURL.Host), "query": trace.B(c.SpecURL.Query), "enc": c.SpecURL.Enc},
 		"oauthurl": trace.B(c.OAuthURL), "hasnext": c.HasNext, "custom": c.Custom, "ops": trace.BB(c.Ops),
 		"slots": slots, "specsha": specsha, "titlevia": c.TitleVia, "specseed": c.SpecSeed}
 }
@@ -115,7 +138,7 @@ func cfgFromJSON(v any) Cfg {
 	su := drv.Map(m["specurl"])
 	c := Cfg{Kind: drv.Str(m["kind"]), Base: trace.Str(m["base"]), Path: trace.Str(m["path"]), Doc: trace.Str(m["doc"]),
 		SpecURL: SpecURL{Kind: drv.Str(su["kind"]), Dirs: strs(su["dirs"]), Doc: trace.Str(su["doc"]), Host: trace.Str(su["host"]),
-			Query: trace.Str(su["query"])},
+			Query: trace.Str(su["query"]), Enc: drv.Bool(su["enc"])},
 		OAuthURL: trace.Str(m["oauthurl"]), HasNext: drv.Bool(m["hasnext"]), Custom: drv.Bool(m["custom"]), Ops: strs(m["ops"]),
 		TitleVia: drv.Str(m["titlevia"]), SpecSeed: drv.Int(m["specseed"])}
 	for _, sv := range drv.List(m["slots"]) {
@@ -229,7 +252,11 @@ func around(p string) []string {
 }
 
 func validTarget(t string) bool {
-	return strings.HasPrefix(t, "/") && !strings.ContainsAny(t, " \x7f")
+	if !strings.HasPrefix(t, "/") || strings.ContainsAny(t, " \x7f") {
+		return false
+	}
+	_, err := url.ParseRequestURI(t) // e.g. a mutilated percent-escape
+	return err == nil
 }
 
 func (c Cfg) guessPaths() []string {
@@ -258,7 +285,7 @@ func (c Cfg) guessPaths() []string {
 		su := c.SpecURL
 		if su.Kind != "default" {
 			q := su
-			q.Query, q.Host = "", ""
+			q.Query, q.Host, q.Enc = "", "", true // a request line spells the location percent-encoded
 			if q.Kind == "absurl" {
 				q.Kind = "abspath"
 			}
@@ -344,11 +371,24 @@ func requestsFor(c *drv.Ctx, cfg Cfg, nRandom int) []Req {
 }
 
 func descriptor(cfg Cfg, reqs []Req) M {
+	for i := range reqs {
+		reqs[i].Inst = 1
+	}
+	return multiDescriptor([]Cfg{cfg}, reqs)
+}
+
+// multiDescriptor: several middleware instances built one after the other in one process and all alive;
+// every request addresses one of them (Inst, 1-based).
+func multiDescriptor(cfgs []Cfg, reqs []Req) M {
+	cs := make([]M, 0, len(cfgs))
+	for _, cfg := range cfgs {
+		cs = append(cs, cfg.JSON(sha8(cfg.specBytes())))
+	}
 	rs := make([]M, 0, len(reqs))
 	for _, r := range reqs {
-		rs = append(rs, M{"method": r.Method, "target": trace.B(r.Target), "body": trace.B(r.Body)})
+		rs = append(rs, M{"inst": r.Inst, "method": r.Method, "target": trace.B(r.Target), "body": trace.B(r.Body)})
 	}
-	return M{"cfg": cfg.JSON(sha8(cfg.specBytes())), "reqs": rs}
+	return M{"cfgs": cs, "reqs": rs}
 }
 
 var (
@@ -358,7 +398,10 @@ var (
 	specURLs = []SpecURL{{Kind: "default"}, {Kind: "abspath", Doc: "swagger.json"}, {Kind: "abspath", Dirs: []string{"specs", "v1"}, Doc: "api.json"},
 		{Kind: "absurl", Host: "example.com:8443", Dirs: []string{"specs"}, Doc: "api.json"}, {Kind: "relative", Doc: "swagger.json"},
 		{Kind: "relative", Dirs: []string{"specs"}, Doc: "api.json"}, {Kind: "abspath", Dirs: []string{"specs"}, Doc: ""},
-		{Kind: "abspath", Dirs: []string{"api"}, Doc: "docs"}, {Kind: "absurl", Host: "h", Doc: "swagger.json"}}
+		{Kind: "abspath", Dirs: []string{"api"}, Doc: "docs"}, {Kind: "absurl", Host: "h", Doc: "swagger.json"},
+		{Kind: "abspath", Dirs: []string{"my specs"}, Doc: "pet store.json"}, {Kind: "absurl", Host: "h", Dirs: []string{"my specs"}, Doc: "pet store.json", Enc: true},
+		{Kind: "abspath", Dirs: []string{"sp\xc3\xa9cs"}, Doc: "api.json", Enc: true}, {Kind: "absurl", Host: "h", Dirs: []string{"sp\xc3\xa9cs"}, Doc: "p\xc3\xa9t.json"},
+		{Kind: "abspath", Doc: "pet store.json", Enc: true}}
 	uiKinds    = []string{"redoc", "rapidoc", "swaggerui"}
 	apiKinds   = []string{"api-redoc", "api-swaggerui", "api-rapidoc"}
 	opsDefault = []string{"/a", "/docs", "/swagger.json", "/docs/x", "/specs/api.json"}
@@ -470,10 +513,9 @@ func generate(c *drv.Ctx) {
 		}
 		return p
 	}
-	for i := 0; i < nRand; i++ {
-		k := allKinds[c.Rng.Intn(len(allKinds))]
+	randomCfg := func(k string, seed int) Cfg {
 		cfg := Cfg{Kind: k, Base: randPath(true), Path: randPath(c.Rng.Intn(4) == 0), HasNext: c.Rng.Intn(2) == 0,
-			Custom: c.Rng.Intn(4) == 0, SpecURL: SpecURL{Kind: "default"}, SpecSeed: 1000 + i}
+			Custom: c.Rng.Intn(4) == 0, SpecURL: SpecURL{Kind: "default"}, SpecSeed: seed}
 		if c.Rng.Intn(6) == 0 && !isAPI(k) {
 			cfg.Base = strings.TrimPrefix(cfg.Base, "/")
 		}
@@ -497,13 +539,63 @@ func generate(c *drv.Ctx) {
 			if su.Kind != "default" && c.Rng.Intn(3) == 0 {
 				su.Dirs = []string{words[c.Rng.Intn(len(words))], words[c.Rng.Intn(len(words))]}
 			}
+			if su.Kind != "default" && c.Rng.Intn(4) == 0 {
+				su.Dirs = append([]string{}, su.Dirs...)
+				su.Dirs = append(su.Dirs, []string{"my specs", "caf\xc3\xa9", "a b c", "\xe2\x82\xac"}[c.Rng.Intn(4)])
+				su.Enc = c.Rng.Intn(2) == 0
+			}
 			cfg.SpecURL = su
 			cfg.Ops = opsDefault
 			cfg.TitleVia = []string{"info", "option"}[c.Rng.Intn(2)]
 		default:
 			cfg.Slots = slotsFor(k, cfg.Custom, rp)
 		}
-		emit(cfg)
+		return cfg
+	}
+	for i := 0; i < nRand; i++ {
+		emit(randomCfg(allKinds[c.Rng.Intn(len(allKinds))], 1000+i))
+	}
+
+	// (iii) several instances alive at once: 2-4 middlewares / API handlers of one UI family (and sometimes a stranger) are
+	// built one after the other in this process, then requested in a shuffled order; each must still answer with its own
+	// page (its own option values), its own spec bytes and its own routing.
+	nMulti := 200
+	if thorough {
+		nMulti = 2000
+	}
+	families := [][]string{{"redoc", "api-redoc"}, {"rapidoc", "api-rapidoc"}, {"swaggerui", "api-swaggerui"}, {"oauth2", "swaggerui"}, {"spec", "api-redoc"}}
+	for i := 0; i < nMulti; i++ {
+		fam := families[i%len(families)]
+		ninst := 2 + c.Rng.Intn(3)
+		var cfgs []Cfg
+		var reqs []Req
+		for j := 0; j < ninst; j++ {
+			k := fam[c.Rng.Intn(len(fam))]
+			if j == ninst-1 && c.Rng.Intn(4) == 0 {
+				k = allKinds[c.Rng.Intn(len(allKinds))]
+			}
+			cfg := randomCfg(k, 5000+10*i+j)
+			// make the option values of the instances pairwise different
+			for si := range cfg.Slots {
+				old := cfg.Slots[si].Payload
+				cfg.Slots[si].Payload = old + strings.Repeat("b", j+1)
+				if cfg.Slots[si].Name == "SpecURL" && isAPI(k) {
+					cfg.SpecURL.Query = strings.Replace(cfg.SpecURL.Query, wrap("SpecURL", old), wrap("SpecURL", cfg.Slots[si].Payload), 1)
+				}
+			}
+			cfgs = append(cfgs, cfg)
+			rs := requestsFor(c, cfg, 2)
+			if len(rs) > 24 {
+				c.Rng.Shuffle(len(rs)-2, func(x, y int) { rs[x+2], rs[y+2] = rs[y+2], rs[x+2] })
+				rs = rs[:24]
+			}
+			for _, r := range rs {
+				r.Inst = j + 1
+				reqs = append(reqs, r)
+			}
+		}
+		c.Rng.Shuffle(len(reqs), func(x, y int) { reqs[x], reqs[y] = reqs[y], reqs[x] })
+		c.Case(multiDescriptor(cfgs, reqs))
 	}
 }
 
@@ -635,23 +727,32 @@ func occurrences(page string, k int) [][]int {
 }
 
 func execute(c *drv.Ctx, d M) bool {
-	cfg := cfgFromJSON(d["cfg"])
+	var cfgs []Cfg
+	for _, cv := range drv.List(d["cfgs"]) {
+		cfgs = append(cfgs, cfgFromJSON(cv))
+	}
 	var reqs []Req
 	for _, rv := range drv.List(d["reqs"]) {
 		m := drv.Map(rv)
-		reqs = append(reqs, Req{Method: drv.Str(m["method"]), Target: trace.Str(m["target"]), Body: trace.Str(m["body"])})
+		reqs = append(reqs, Req{Inst: drv.Int(m["inst"]), Method: drv.Str(m["method"]), Target: trace.Str(m["target"]), Body: trace.Str(m["body"])})
 	}
 	var nl nextLog
 	var sent, orig *http.Request
 	var sentBody string
 	ran := 0
-	h, pmsg := build(cfg, &nl, &orig, &sent, &sentBody, &ran)
-	c.W.Event("build", M{"panic": pmsg != ""})
-	if h == nil {
-		return false
+	// all instances are built first, in order, and stay alive
+	hs := make([]http.Handler, len(cfgs))
+	for i, cfg := range cfgs {
+		h, pmsg := build(cfg, &nl, &orig, &sent, &sentBody, &ran)
+		c.W.Event("build", M{"inst": i + 1, "panic": pmsg != ""})
+		hs[i] = h
 	}
 	docAnswered, passed := false, false
 	for _, rq := range reqs {
+		cfg, h := cfgs[rq.Inst-1], hs[rq.Inst-1]
+		if h == nil {
+			continue
+		}
 		nl = nextLog{}
 		ran = 0
 		var rd io.Reader
@@ -691,7 +792,7 @@ func execute(c *drv.Ctx, d M) bool {
 				}
 			}
 		}
-		c.W.Event("req", M{"method": rq.Method, "target": trace.B(rq.Target), "urlpath": trace.B(urlpath), "noescape": req.URL.EscapedPath() == urlpath,
+		c.W.Event("req", M{"inst": rq.Inst, "method": rq.Method, "target": trace.B(rq.Target), "urlpath": trace.B(urlpath), "noescape": req.URL.EscapedPath() == urlpath,
 			"next_called": nl.called, "same_method": nl.sameMethod, "same_url": nl.sameURL, "same_header": nl.sameHeader,
 			"same_body": nl.sameBody, "same_ptr": nl.samePtr, "status": w.Code, "ctype": ctype, "sha": sha8(body), "ran": ran,
 			"panic": panicked, "slots": slots, "specref": specref})
